@@ -145,10 +145,44 @@ THEOREM_RE = re.compile(r"^\s*(?:@\[[^\]]*\]\s*)?(?:private\s+|protected\s+)?the
 NAMESPACE_RE = re.compile(r"^namespace\s+(\S+)", re.M)
 
 
-def strip_comments(text):
-    text = re.sub(r"/-.*?-/", lambda m: "\n" * m.group(0).count("\n"), text, flags=re.S)
-    text = re.sub(r"--.*", "", text)
-    return text
+def strip_comments(text, strings=False):
+    """Lean source without comments (nested block comments, line comments); with strings=True string literals are blanked too.
+    Newlines are kept so that line numbers stay right."""
+    out = []
+    i, n, depth = 0, len(text), 0
+    while i < n:
+        c2 = text[i:i + 2]
+        if depth:
+            if c2 == "/-":
+                depth += 1
+                i += 2
+            elif c2 == "-/":
+                depth -= 1
+                i += 2
+            else:
+                if text[i] == "\n":
+                    out.append("\n")
+                i += 1
+            continue
+        if c2 == "/-":
+            depth = 1
+            i += 2
+            continue
+        if c2 == "--":
+            while i < n and text[i] != "\n":
+                i += 1
+            continue
+        if text[i] == '"':
+            j = i + 1
+            while j < n and text[j] != '"':
+                j += 2 if text[j] == "\\" else 1
+            lit = text[i:j + 1]
+            out.append('""' + "\n" * lit.count("\n") if strings else lit)
+            i = j + 1
+            continue
+        out.append(text[i])
+        i += 1
+    return "".join(out)
 
 
 def theorems_of(path):
@@ -174,7 +208,7 @@ def theorems_of(path):
 def forbidden_scan(paths):
     hits = []
     for f in paths:
-        text = strip_comments(f.read_text())
+        text = strip_comments(f.read_text(), strings=True)
         for i, line in enumerate(text.splitlines(), 1):
             if FORBIDDEN.search(line):
                 hits.append(f"{f.relative_to(LEAN)}:{i}: {line.strip()}")
